@@ -49,6 +49,14 @@ def main():
     warnings.filterwarnings('ignore')
     from vlib import coqio, framework
     import translate.all as tr
+    # a corrupted table can make pandas / scipy allocate without bound: cap the address space so that the call fails with
+    # MemoryError (reported through `guarded`) instead of the whole check being killed
+    try:
+        import resource
+        cap = int(float(os.environ.get('VERIF_MEM_GB', '16')) * (1 << 30))
+        resource.setrlimit(resource.RLIMIT_AS, (cap, cap))
+    except Exception:
+        pass
     ctx = framework.Ctx(a.pid, a.tier, seed)
     mod = importlib.import_module('checks.' + a.pid)
 
@@ -71,19 +79,45 @@ def main():
     ctx.assumptions = pr['assumptions']
     ctx.proofs_ok = pr['ok']
     ctx.proof_log = pr['log']
-    # 4. correspondence
-    if a.replay:
-        rc = mod.replay(ctx, a.replay)
-    else:
+    # 4.+5. correspondence and verdict, in a child process: compiled back ends (navis-fastcore, igraph, ncollpyde) can abort or be
+    # OOM-killed on a corrupted table, which no Python handler can catch.  `guarded` records every implementation call in
+    # VERIF_INFLIGHT before making it; if the child dies the parent reports that call as the failing input.
+    inflight = os.path.join(VERIF, '.work', a.pid, 'inflight.json')
+    os.makedirs(os.path.dirname(inflight), exist_ok=True)
+    if os.path.exists(inflight):
+        os.remove(inflight)
+    os.environ['VERIF_INFLIGHT'] = inflight
+    sys.stdout.flush(); sys.stderr.flush()
+    child = os.fork()
+    if child == 0:
+        rc = 1
         try:
-            mod.run(ctx)
-        except Exception as e:  # harness failure is never silently a pass
-            import traceback
-            ctx.obligation('harness', False, 'exception in check: %s\n%s' % (e, traceback.format_exc()[-1500:]))
-    # 5. verdict
-    rc = ctx.finish(rule=getattr(mod, 'RULE', ''), trusted_base=TRUSTED + getattr(mod, 'TRUSTED', []),
-                    assumptions=getattr(mod, 'ASSUMPTIONS', []),
-                    checker_cmd='cd /verif && ./check.py %s --tier %s  (coq_makefile+make full .vo build; coqc props/%s.v)' % (a.pid, a.tier, a.pid))
+            if a.replay:
+                rc = mod.replay(ctx, a.replay)
+            else:
+                try:
+                    mod.run(ctx)
+                except Exception as e:  # harness failure is never silently a pass
+                    import traceback
+                    ctx.obligation('harness', False, 'exception in check: %s\n%s' % (e, traceback.format_exc()[-1500:]))
+            rc = ctx.finish(rule=getattr(mod, 'RULE', ''), trusted_base=TRUSTED + getattr(mod, 'TRUSTED', []),
+                            assumptions=getattr(mod, 'ASSUMPTIONS', []),
+                            checker_cmd='cd /verif && ./check.py %s --tier %s  (coq_makefile+make full .vo build; coqc props/%s.v)' % (a.pid, a.tier, a.pid))
+        finally:
+            sys.stdout.flush(); sys.stderr.flush()
+            os._exit(rc if rc in (0, 1) else 1)
+    _, status = os.waitpid(child, 0)
+    if os.WIFEXITED(status) and os.WEXITSTATUS(status) in (0, 1):
+        sys.exit(os.WEXITSTATUS(status))
+    import json
+    how = 'signal %d' % os.WTERMSIG(status) if os.WIFSIGNALED(status) else 'exit status %d' % os.WEXITSTATUS(status)
+    try:
+        call = json.load(open(inflight))
+    except Exception:
+        call = dict(note='no implementation call was in flight')
+    ctx.violation('the implementation call in flight killed the Python process (%s: abort / out-of-memory in compiled code) instead of returning or raising' % how, call)
+    rc = ctx.finish(rule=getattr(mod, 'RULE', ''), trusted_base=TRUSTED + getattr(mod, 'TRUSTED', []), assumptions=getattr(mod, 'ASSUMPTIONS', []),
+                    checker_cmd='cd /verif && ./check.py %s --tier %s' % (a.pid, a.tier))
     sys.exit(rc)
 
 
